@@ -157,7 +157,7 @@ def deliver(tokenizer, source, delivery, on_token=None):
     return out
 
 
-PRIOR_USES = ("complete-list", "complete-generator", "partial-suspended", "partial-closed", "never-started")
+PRIOR_USES = ("complete-list", "complete-generator", "partial-suspended", "partial-closed", "never-started", "closed-during-second-use")
 
 
 def parse_delivery(delivery):
@@ -175,13 +175,18 @@ def parse_delivery(delivery):
     return mode, prior, use, j
 
 
+class EarlierResultAltered(Exception):
+    """The list returned by an earlier tokenize() call changed when the tokenizer was used again."""
+
+
 def earlier_use(tk, v1, kind, use, j):
     """Use the tokenizer object on another stream first (C20: results must not depend on it)."""
     frames, _ = FRAME_KINDS[kind](v1)
     src = CountingSource(frames)
     if use == "complete-list":
-        tk.tokenize(src)
-        return None
+        res = tk.tokenize(src)
+        # the caller keeps this result: it must still be the same after the tokenizer is used again
+        return ("held-result", res, [(list(t[0]), t[1], t[2]) for t in res])
     if use == "complete-generator":
         for _ in tk.tokenize(src, generator=True):
             pass
@@ -194,6 +199,8 @@ def earlier_use(tk, v1, kind, use, j):
             next(g)
         except StopIteration:
             break
+    if use == "closed-during-second-use":
+        return g  # closed by run() once the second use has delivered its first token
     if use == "partial-closed":
         g.close()
         return None
@@ -208,7 +215,22 @@ def run(v, params, kind="tuple", delivery="list", on_token=None):
     src = CountingSource(frames)
     tk = make_tokenizer(validator, params)
     keep = earlier_use(tk, prior, kind, use, j) if prior is not None else None
+    if use == "closed-during-second-use" and keep is not None:
+        # the abandoned generator of the earlier use is finalised while the second run is under way (between two tokens)
+        g2 = tk.tokenize(src, generator=True)
+        tokens = []
+        for t in g2:
+            tokens.append(tuple(t))
+            if keep is not None:
+                keep.close()
+                keep = None
+        return frames, tokens, src
     tokens = deliver(tk, src, mode, on_token)
+    if isinstance(keep, tuple) and keep and keep[0] == "held-result":
+        _, res, snap = keep
+        if len(res) != len(snap) or any(len(a[0]) != len(b[0]) or a[1:] != tuple(b[1:]) or any(x is not y for x, y in zip(a[0], b[0]))
+                                        for a, b in zip([tuple(t) for t in res], snap)):
+            raise EarlierResultAltered(f"earlier list result had {len(snap)} tokens, now {len(res)}")
     del keep
     return frames, tokens, src
 
